@@ -196,6 +196,16 @@ OpenSlot(s, m) ==
     /\ guardRc' = IF m = "wait" THEN guardRc + 1 ELSE guardRc
     /\ UNCHANGED <<ovars, valueRc, closure, mutex, gst, fst, sval, chan, rxst, data, ver, emA, emB>>
 
+(* SlotGuard::delay_flush(owner.flush_guard()): the guard is in wait mode from now on, however it was
+   opened; a flush guard it already held is released (the owner is alive, so that release emits nothing) *)
+DelayFlush(s) ==
+    /\ opc = "live" /\ sst[s] = "open" /\ smode[s] = "discard"
+    /\ smode' = [smode EXCEPT ![s] = "wait"] /\ guardRc' = guardRc + 1
+    /\ UNCHANGED <<ovars, valueRc, closure, mutex, gst, fst, sst, sval, chan, rxst, data, ver, emA, emB>>
+(* delay_flush on a guard that is already in wait mode: new flush guard in, old one out - nothing
+   changes (a stuttering step: used by the generators only, not part of Next) *)
+ReDelayFlush(s) == opc = "live" /\ sst[s] = "open" /\ smode[s] = "wait" /\ UNCHANGED vars
+
 WaitForData(s) ==
     /\ WaitData /\ opc = "live" /\ sst[s] # "unopened" /\ rxst[s] = "open" /\ chan[s] >= 0
     /\ data' = [data EXCEPT ![s] = chan[s]] /\ rxst' = [rxst EXCEPT ![s] = "taken"]
@@ -305,7 +315,7 @@ Step ==
     \/ \E g \in G : NewGuard(g) \/ DropGuard(g)
     \/ \E f \in F : NewForce(f) \/ FUpgrade(f) \/ FTake(f) \/ FCall(f) \/ FRelease(f)
     \/ \E h \in H : CloneHandle(h) \/ DropHandle(h)
-    \/ \E s \in S : (\E m \in Modes : OpenSlot(s, m)) \/ WaitForData(s) \/ MutSlot(s) \/ SBegin(s) \/ SSend(s) \/ SRelease(s)
+    \/ \E s \in S : (\E m \in Modes : OpenSlot(s, m)) \/ DelayFlush(s) \/ WaitForData(s) \/ MutSlot(s) \/ SBegin(s) \/ SSend(s) \/ SRelease(s)
     \/ DropOwner1 \/ DropOwner2
     \/ EmitRead \/ EmitAppend
 
